@@ -232,14 +232,21 @@ class NPProxy:
 
     @staticmethod
     def bincount(x, weights=None, minlength=0):
-        if weights is not None and _isobj(np.asarray(weights) if not isinstance(weights, np.ndarray) else weights):
-            x = np.asarray(x)
-            n = max(int(x.max()) + 1 if x.size else 0, minlength)
+        wrapped = hasattr(x, "_val") or hasattr(weights, "_val")
+        xv = getattr(x, "_val", x)
+        wv = getattr(weights, "_val", weights)
+        if wv is not None and _isobj(np.asarray(wv) if not isinstance(wv, np.ndarray) else wv):
+            xv = np.asarray(xv)
+            n = max(int(xv.max()) + 1 if xv.size else 0, minlength)
             out = np.empty(n, dtype=object)
             out.fill(0)
-            for i, w in zip(x, weights):
+            for i, w in zip(xv, wv):
                 out[int(i)] = out[int(i)] + w
-            return out.view(sc.SymArr)
+            out = out.view(sc.SymArr)
+            if wrapped:
+                from nifty.cl.any_array import AnyArray
+                return AnyArray(out)
+            return out
         return np.bincount(x, weights=weights, minlength=minlength)
 
     @staticmethod
